@@ -100,6 +100,61 @@ func checkC24(r *Run) {
 			r.Check("C24-R1", "remove writes back the stored list minus the removed connection", s.pos, strings.Contains(s.val, "$0.listenAddrs["+s.key+"]"), trunc(s.val, 200))
 		}
 	}
+	// all-or-nothing: once a bookkeeping map was written the operation can no longer fail (a rejected event
+	// leaves no trace in any map)
+	for _, fnName := range []string{"daemon.Connections.pending", "daemon.Connections.connected", "daemon.Connections.introduced", "daemon.Connections.remove", "daemon.Connections.updateMirror"} {
+		wf := r.fn("C24-R1", fnName)
+		if wf == nil {
+			continue
+		}
+		wff := r.P.Facts(wf)
+		rejectBlocks := map[*ssa.BasicBlock]bool{}
+		for _, e := range wff.Exits() {
+			if e.Kind == ExitReject && e.Ret != nil {
+				rejectBlocks[e.Ret.Block()] = true
+			}
+		}
+		nW := 0
+		for _, b := range wf.Blocks {
+			for _, in := range b.Instrs {
+				isWrite := false
+				var m ssa.Value
+				switch x := in.(type) {
+				case *ssa.MapUpdate:
+					isWrite, m = true, x.Map
+				case *ssa.Call:
+					if calleeName(&x.Call) == "delete" {
+						isWrite, m = true, x.Call.Args[0]
+					}
+				}
+				if !isWrite {
+					continue
+				}
+				t := wff.Term(m)
+				own := false
+				for _, name := range maps {
+					if t == "$0."+name || name == "mirrors" && strings.Contains(t, "$0.mirrors") {
+						own = true
+					}
+				}
+				if !own {
+					continue
+				}
+				nW++
+				reach := wff.reachFrom(b, nil)
+				bad := ""
+				for rb := range rejectBlocks {
+					if reach[rb] && rb != b {
+						bad = r.P.Pos(rb.Instrs[len(rb.Instrs)-1].Pos())
+					}
+				}
+				r.Check("C24-R1", fnName+": no error return after the write to "+t, r.P.Pos(in.Pos()), bad == "", "the operation can still fail at "+bad+" after this write: a rejected event leaves the entry behind")
+			}
+		}
+		if fnName != "daemon.Connections.updateMirror" {
+			r.Check("C24-R1", fnName+": bookkeeping writes found", "", nW >= 1, "")
+		}
+	}
 	// every kind of insertion has its deletion in remove
 	want := map[string]bool{}
 	for _, s := range sites {
